@@ -161,10 +161,11 @@ def setTask (w : World) (t : Nat) (f : Task → Task) : World :=
   { w with tasks := w.tasks.mapIdx fun k x => if k == t then f x else x }
 
 /-- `Task.defer()` for a join target whose row already exists (found by its unique key): the row
-    is put back to WAITING instead of a new row being created -/
+    is put back to WAITING instead of a new row being created, and - being re-opened - loses the
+    `processed` flag of its previous completion (`set_state(WAITING, msg, processed=False)`) -/
 def deferExisting (wfi : Nat) (names : List String) (x : Task) : Task :=
   if x.wf == wfi && x.spec.join && names.contains x.name && x.state != .WAITING
-  then { x with state := .WAITING } else x
+  then { x with state := .WAITING, processed := false } else x
 
 /-- `task_handler.skip_task`: `complete(SKIPPED, skip=True)` + dispatch of the next commands -/
 def skipTask (w : World) (t : Nat) : World :=
